@@ -282,6 +282,11 @@ class ASTNode:
         """Emit code"""
         return self.value
 
+    @property
+    def emit_reference(self):
+        """Emit code for the reference the node stands for, not for its value"""
+        return self.emit
+
 
 class OperatorNode(ASTNode):
     op_map = {
@@ -293,6 +298,17 @@ class OperatorNode(ASTNode):
 
     @property
     def emit(self):
+        return self._emit('_R_')
+
+    @property
+    def emit_reference(self):
+        if self.value in (' ', ':'):
+            return self._emit('_REF_')
+        else:
+            # the operands of any other operator are values
+            return self.emit
+
+    def _emit(self, range_func):
         xop = self.value
 
         # Get the arguments
@@ -314,16 +330,12 @@ class OperatorNode(ASTNode):
             ss = f'{args[0].emit} / 100'
         elif op == ' ':
             # range intersection
-            ss = '_R_' + (f'(str({args[0].emit} & {args[1].emit}))'
-                          .replace('_R_', '_REF_')
-                          .replace('_C_', '_REF_')
-                          )
+            ss = (f'{range_func}(str('
+                  f'{args[0].emit_reference} & {args[1].emit_reference}))')
         elif op == ':':
             # range union
-            ss = '_R_' + (f'(str({args[0].emit} ** {args[1].emit}))'
-                          .replace('_R_', '_REF_')
-                          .replace('_C_', '_REF_')
-                          )
+            ss = (f'{range_func}(str('
+                  f'{args[0].emit_reference} ** {args[1].emit_reference}))')
         else:
             if op != ',':
                 op = ' ' + op
@@ -371,7 +383,11 @@ class RangeNode(OperandNode):
     def emit(self):
         return self._emit()
 
-    def _emit(self, value=None):
+    @property
+    def emit_reference(self):
+        return self._emit(reference=True)
+
+    def _emit(self, value=None, reference=False):
         # resolve the range into cells
         sheet = self.cell and self.cell.sheet or ''
         value = value is not None and value or self.value
@@ -400,10 +416,11 @@ class RangeNode(OperandNode):
                 addr_str, sheet=self.cell.address.sheet, cell=self.cell)
 
         if isinstance(address, AddressMultiAreaRange):
-            return ', '.join(self._emit(value=str(addr)) for addr in address)
+            return ', '.join(self._emit(value=str(addr), reference=reference)
+                             for addr in address)
         else:
-            template = '_R_({})' if address.is_range else '_C_({})'
-            return template.format(python_str(address))
+            func = '_REF_' if reference else '_R_' if address.is_range else '_C_'
+            return f'{func}({python_str(address)})'
 
 
 class FunctionNode(ASTNode):
@@ -443,14 +460,27 @@ class FunctionNode(ASTNode):
     def __init__(self, *args):
         super(FunctionNode, self).__init__(*args)
         self.num_args = 0
+        self.reference_args = False
+
+    def emit_arg(self, node):
+        return node.emit_reference if self.reference_args else node.emit
 
     def comma_join_emit(self, fmt_str=None, to_emit=None):
         if to_emit is None:
             to_emit = self.children
         if fmt_str is None:
-            return ", ".join(n.emit for n in to_emit)
+            return ", ".join(self.emit_arg(n) for n in to_emit)
         else:
-            return ", ".join(fmt_str.format(n.emit) for n in to_emit)
+            return ", ".join(fmt_str.format(self.emit_arg(n)) for n in to_emit)
+
+    @property
+    def emit_reference(self):
+        # given references a function can return a reference: INDEX(), OFFSET()
+        self.reference_args = True
+        try:
+            return self.emit
+        finally:
+            self.reference_args = False
 
     @property
     def emit(self):
@@ -497,8 +527,7 @@ class FunctionNode(ASTNode):
         if len(self.children) == 0:
             address = f'_REF_({python_str(self.cell.address)})'
         else:
-            address = self.children[0].emit
-            address = address.replace('_R_', '_REF_').replace('_C_', '_REF_')
+            address = self.children[0].emit_reference
             if address.startswith('_REF_(str('):
                 address = address[10:-2]
         return address
@@ -514,7 +543,7 @@ class FunctionNode(ASTNode):
         return f'offset({self._build_reference}{to_emit})'
 
     def func_indirect(self):
-        to_emit = list(c.emit for c in self.children)
+        to_emit = list(self.emit_arg(c) for c in self.children)
         if len(to_emit) == 1:
             to_emit.append('True')
         to_emit.append(f'"{self.cell.sheet}"')
